@@ -25,12 +25,14 @@ def main():
     fn = os.path.join(ROOT, "tools", "not_applicable.json")
     if os.path.exists(fn):
         na_reasons = json.load(open(fn))
+    # only checks the lead has integrated and verified are registered
+    registered = set(json.load(open(os.path.join(ROOT, "tools", "registered.json"))))
     checks, na, served = [], [], []
     for p in props:
         pid = p["id"]
         path = os.path.join(ROOT, "checks", pid.lower() + ".py")
         m = meta_of(path) if os.path.exists(path) else {}
-        if "META" not in m or pid in na_reasons:
+        if "META" not in m or pid in na_reasons or pid not in registered:
             na.append({"property_id": pid, "reason": na_reasons.get(pid, "check not built yet in this round (planned, see DESIGN.md section 4)")})
             continue
         meta = m["META"]
